@@ -28,6 +28,13 @@ type c15Case struct {
 
 func genC15(t *rapid.T) c15Case {
 	c := c15Case{Case: genRepHist(t, core.Thorough(), false, true)}
+	// some acknowledged syncs have a Snapshot request queue up behind them (it waits for the executor while the sync
+	// creates the next TXID)
+	for i := range c.Ops {
+		if c.Ops[i].K == "syncwait" && rapid.IntRange(0, 3).Draw(t, "queuedSnapshot") == 0 {
+			c.Ops[i].X = []lsw.Op{{K: "at", M: rapid.SampledFrom([]string{"verify", "sync_page_map", "sync_prepare_ltx"}).Draw(t, "phase"), N: 1, X: []lsw.Op{{K: "bg", M: "snapshot"}}}}
+		}
+	}
 	c.Pick = rapid.SliceOfN(rapid.IntRange(0, 1<<20), 14, 14).Draw(t, "pick")
 	c.CLI = rapid.IntRange(0, 3).Draw(t, "cli") == 0
 	return c
